@@ -182,7 +182,7 @@ EXTRA8 = {
     "C09": " RESULTTYPE: every result type the query parsers can produce has a keyword in the printer's table.",
     "C10": " KEYDATA: remove_key removes every data item of the key (C02.EVERY on remove_key).",
     "C12": " SPLIT: split_text's constructor and SplitTextIter::next, interpreted together, hand the resource's byte->codepoint conversion the absolute bytes of each piece. UNIT follows Option::map into closures.",
-    "C13": " FLAG evaluates add() on members with and without handles. SETLAW: converse / symmetry / implication laws and negation-as-complement (empty subject included) on the set-against-set test for sets of one or two members; four laws fail on the pinned tree and are known findings.",
+    "C13": " FLAG evaluates add() on members with and without handles. SETLAW: converse / symmetry / implication laws and negation-as-complement (empty subject included) on the set-against-set test for sets of one or two members; four laws fail on the pinned tree and are known findings - these set-level evaluations are outside the obligations of the proof-level claim, which is about pairs of ranges, singleton sets and the documented lifting.",
     "C17": " SETLOCAL: no collection of the exporter is keyed by a set-local handle. TEMPLATE: a free-text replacement is the last substitution into a template.",
 }
 
